@@ -190,7 +190,9 @@ def trace_record(i, src, t):
 
 
 # ------------------------------------------------------------------------------------------------ parts
-COMMENT_BLOCKS = ["# note \\\n", "# note \\\n\n", "# note\n", "\t# a \\\n# b\\\n", "#\\\n", "# x \\\\\n"]
+COMMENT_BLOCKS = ["# note \\\n", "# note \\\n\n", "# note\n", "\t# a \\\n# b\\\n", "#\\\n", "# x \\\\\n",
+                  # statements with an empty here-document body (quoted, escaped and plain delimiter), followed by a blank line
+                  "true <<'EOF'\nEOF\n\n", "true <<\\EOF\nEOF\n", "true <<EOF\nEOF\n\n"]
 
 
 def is_composed(v):
